@@ -530,6 +530,22 @@ func jsonValue(tag string, depth int) any {
 	return nil
 }
 
+func WithCookie(r *http.Request, name, value string) *http.Request {
+	r.AddCookie(&http.Cookie{Name: name, Value: value})
+	return r
+}
+
+func CookieSet(w http.ResponseWriter, name string) (value string, maxAge int, ok bool) {
+	resp := http.Response{Header: w.Header()}
+	cs := resp.Cookies()
+	for i := len(cs) - 1; i >= 0; i-- {
+		if cs[i].Name == name {
+			return cs[i].Value, cs[i].MaxAge, true
+		}
+	}
+	return "", 0, false
+}
+
 func Debugf(format string, args ...any) { res.Notes = append(res.Notes, fmt.Sprintf(format, args...)) }
 
 // ---- scripted HTTP transport (plain Go in both variants: executed symbolically and natively) ----
